@@ -3,6 +3,8 @@ package c08
 import (
 	"fmt"
 	"io/fs"
+	"os"
+	"path/filepath"
 	"sort"
 	"strings"
 
@@ -24,12 +26,70 @@ import (
 //	shadow        upper: everything                           lower: the same config file names with
 //	              other ("shadowed…") values for the same keys, which must never be seen
 //	three         top: pages, layouts, the later data file    middle: the earlier data file   bottom: theme.yml
-var stores = []string{"data-upper", "data-lower", "data-split", "shadow", "three"}
+//	dirfs         os.DirFS of a temporary directory (outside /verif and /repo, removed afterwards), plain files
+//	dirfs-symlink the same, but theme.yml and every data/*.yml are SYMBOLIC LINKS to files kept
+//	              outside the served tree (ConfigMap mounts, nix / stow trees): a link to a file is a file
+//	sub           fs.Sub(memfs, "site") of a filesystem that keeps everything below site/
+var stores = []string{"data-upper", "data-lower", "data-split", "shadow", "three", "dirfs", "dirfs-symlink", "sub"}
+
+// diskFS writes files below a fresh temporary directory and serves them with os.DirFS.
+func diskFS(files map[string]string, symlinks bool) (fs.FS, func(), error) {
+	tmp, err := os.MkdirTemp("", "verif-c08-")
+	if err != nil {
+		return nil, nil, fmt.Errorf("harness: %w", err)
+	}
+	cleanup := func() { _ = os.RemoveAll(tmp) }
+	root := filepath.Join(tmp, "root")
+	real := filepath.Join(tmp, "real")
+	for name, content := range files {
+		dst := filepath.Join(root, filepath.FromSlash(name))
+		if err := os.MkdirAll(filepath.Dir(dst), 0o755); err != nil {
+			cleanup()
+			return nil, nil, fmt.Errorf("harness: %w", err)
+		}
+		if symlinks && (name == "theme.yml" || strings.HasPrefix(name, "data/")) {
+			target := filepath.Join(real, strings.ReplaceAll(name, "/", "_"))
+			if err := os.MkdirAll(real, 0o755); err == nil {
+				err = os.WriteFile(target, []byte(content), 0o644)
+				if err == nil {
+					err = os.Symlink(target, dst)
+				}
+			}
+			if err != nil {
+				cleanup()
+				return nil, nil, fmt.Errorf("harness: %w", err)
+			}
+			continue
+		}
+		if err := os.WriteFile(dst, []byte(content), 0o644); err != nil {
+			cleanup()
+			return nil, nil, fmt.Errorf("harness: %w", err)
+		}
+	}
+	if err := os.MkdirAll(root, 0o755); err != nil {
+		cleanup()
+		return nil, nil, fmt.Errorf("harness: %w", err)
+	}
+	return os.DirFS(root), cleanup, nil
+}
 
 // buildFS distributes files as the store says. shadowKeys are the keys the shadowed copies define.
-func buildFS(files map[string]string, store string, shadowKeys []string) (fs.FS, error) {
-	if store == "" {
-		return memfs.FromMap(files), nil
+func buildFS(files map[string]string, store string, shadowKeys []string) (fs.FS, func(), error) {
+	none := func() {}
+	switch store {
+	case "":
+		return memfs.FromMap(files), none, nil
+	case "dirfs":
+		return diskFS(files, false)
+	case "dirfs-symlink":
+		return diskFS(files, true)
+	case "sub":
+		below := map[string]string{"other/theme.yml": "zelsewhere: x\n"}
+		for name, content := range files {
+			below["site/"+name] = content
+		}
+		sub, err := fs.Sub(memfs.FromMap(below), "site")
+		return sub, none, err
 	}
 	var data []string
 	for name := range files {
@@ -76,12 +136,12 @@ func buildFS(files map[string]string, store string, shadowKeys []string) (fs.FS,
 				at = 1
 			}
 		default:
-			return nil, fmt.Errorf("malformed case: store %q", store)
+			return nil, nil, fmt.Errorf("malformed case: store %q", store)
 		}
 		layers[at][name] = content
 	}
 	if store == "three" {
-		return vuego.NewOverlayFS(memfs.FromMap(layers[0]), memfs.FromMap(layers[1]), memfs.FromMap(layers[2])), nil
+		return vuego.NewOverlayFS(memfs.FromMap(layers[0]), memfs.FromMap(layers[1]), memfs.FromMap(layers[2])), none, nil
 	}
-	return vuego.NewOverlayFS(memfs.FromMap(layers[0]), memfs.FromMap(layers[1])), nil
+	return vuego.NewOverlayFS(memfs.FromMap(layers[0]), memfs.FromMap(layers[1])), none, nil
 }
